@@ -21,9 +21,10 @@ META = {
                 "numpy float64 for the with-phase and whole-circuit oracles"],
 }
 
-HDR = "From PLV Require Import Disc.CliffordTModel.\nRequire Import QArith."
+HDR = "From PLV Require Import Disc.CliffordTModel.\nRequire Import QArith List ZArith. Import ListNotations."
+SCALE_BITS = 128
 NIB = {"H": "1", "S": "2", "T": "3", "X": "4", "Y": "5", "Z": "6", "s": "7", "t": "8", "I": "9", "P": "a"}
-DPS = 80
+DPS = 60
 ALLOWED_CT = {"Hadamard", "S", "T", "PauliX", "PauliY", "PauliZ", "Adjoint(S)", "Adjoint(T)", "Identity", "GlobalPhase",
               "CNOT", "CY", "CZ", "SWAP", "ISWAP", "SX", "Adjoint(SX)", "Adjoint(ISWAP)"}
 PI = math.pi
@@ -86,9 +87,21 @@ def g_word(word):
                  lambda w: "0x1" + "".join(NIB.get(ch, "f") for ch in reversed(w)) + "%Z")
 
 
+def ghex(n):
+    n = int(n)
+    return f"(-0x{-n:x})%Z" if n < 0 else f"0x{n:x}%Z"
+
+
+def ghq(fr):
+    return f"({ghex(fr.numerator)} # 0x{fr.denominator:x})"
+
+
 def g_case(word, enc, eps2, eps2a, dyd):
-    st = f"(Some ({glist(dyd[0], gz)}, {gz(dyd[1])}))" if dyd else "None"
-    return f'({g_word(word)}, {glist(enc, lambda e: "(" + gq(e[0]) + ", " + gq(e[1]) + ")")}, {gq(eps2)}, {gq(eps2a)}, {st})'
+    """enclosures are scaled by 2^SCALE_BITS and rounded outwards to integers"""
+    sc = 1 << SCALE_BITS
+    st = f"(Some ({glist(dyd[0], gz)}, {gz(dyd[1])}))" if dyd else "(None : option (list Z * Z))"
+    iv = lambda e: "(" + ghex(math.floor(e[0] * sc)) + ", " + ghex(math.ceil(e[1] * sc)) + ")"
+    return f'({g_word(word)}, {glist(enc, iv)}, {ghex(sc)}, {ghq(eps2)}, {ghq(eps2a)}, {st})'
 
 
 def eps_pair(kind, eps):
@@ -144,7 +157,7 @@ def gen_sk(rng, n, thorough):
             params[0] = rng.choice(BOUNDARY)
         c = {"fn": "sk", "gate": g, "params": params, "eps": rng.choice(eps_pool)}
         r = rng.random()
-        if r < 0.3:
+        if r < 0.3 or not thorough:          # quick tier: bounded depth keeps the words below ~6000 gates
             c["kw"] = {"max_depth": rng.choice([1, 2, 3])}
         elif r < 0.45:
             c["kw"] = {"basis_set": ["H", "T", "T*"], "basis_length": 8}
@@ -178,14 +191,16 @@ def gen_ct(rng, n, n_sk):
              {"fn": "ct", "ops": [["PhaseShift", [1.1], [0]]], "eps": 1e-5, "method": "gridsynth"},
              {"fn": "ct", "ops": [["RX", [0.3], [0]], ["CNOT", [], [0, 1]], ["RY", [1.1], [1]], ["RZ", [0.3], [0]]], "eps": 1e-3, "method": "gridsynth"},
              {"fn": "ct", "ops": [["RZ", [PI / 4], [0]], ["RX", [PI], [0]], ["RY", [2.0], [0]]], "eps": 1e-6, "method": "gridsynth"},
-             {"fn": "ct", "ops": [["RZ", [0.3], [0]]], "eps": 1e-2, "method": "sk"}]
+             {"fn": "ct", "ops": [["RZ", [5e-7], [0]]], "eps": 1e-7, "method": "gridsynth"},   # below _simplify_param's atol
+             {"fn": "ct", "ops": [["PhaseShift", [3 * PI / 4], [0]]], "eps": 1e-3, "method": "gridsynth"},   # T-shortcut of _rot_decompose
+             {"fn": "ct", "ops": [["RX", [0.4], [0]]], "eps": 1e-1, "method": "sk"}]
     k = 0
     while len(cases) < n + n_sk:
         sk = k < n_sk - 1
         k += 1
         cases.append({"fn": "ct", "ops": gen_circuit(rng, single=sk or rng.random() < 0.3),
                       "eps": rng.choice([1e-1, 3e-2]) if sk else rng.choice([1e-1, 1e-2, 1e-3, 1e-4, 1e-5, 1e-6, 1e-7]),
-                      "method": "sk" if sk else "gridsynth"})
+                      "method": "sk" if sk else "gridsynth", **({"kw": {"max_depth": 3}} if sk else {})})
     return cases
 
 
@@ -253,7 +268,15 @@ def run(ctx):
         n_stage += bool(o.get("dyd"))
         terms.append(g_case(o["word"], enc, e2, e2a, o.get("dyd")))
     t1 = time.time()
-    bad = ctx.coq_eval_cases("cases", HDR, terms, "ct_check_case", chunk=12 if len(terms) < 400 else 60, par=10)
+    # short words in big shards, long (Solovay-Kitaev) words one per shard, all in parallel
+    short = [i for i, it in enumerate(items) if len(it[6]["word"]) <= 1500]
+    long_ = [i for i, it in enumerate(items) if len(it[6]["word"]) > 1500]
+    from concurrent.futures import ThreadPoolExecutor
+    with ThreadPoolExecutor(max_workers=2) as ex:
+        f1 = ex.submit(ctx.coq_eval_cases, "cases", HDR, [terms[i] for i in short], "ct_check_case", 40 if len(short) < 600 else 100, 900, 6)
+        f2 = ex.submit(ctx.coq_eval_cases, "long", HDR, [terms[i] for i in long_], "ct_check_case", 1, 900, 6) if long_ else None
+        bad = sorted([short[i] for i in f1.result()] + ([long_[i] for i in f2.result()] if f2 else []))
+    ctx.coverage["correspondence_cases"] = len(terms)
     codes = {}
     if bad:
         res = ctx.coq_eval_terms("codes", HDR, [f"ct_code {terms[i]}" for i in bad])
@@ -329,7 +352,12 @@ def run(ctx):
                 ctx.violation("ct-eps:" + key, rep, what=f"per-gate precision {r['eps']} x {len(o['rec'])} approximated gates exceeds the requested circuit precision {c['eps']}")
         if id(c) not in escaped_cases:
             if o["d_circ"] > c["eps"] * (1 + 1e-6) + 1e-9:
-                if any(n == "PhaseShift" and bad_phaseshift(p[0]) for n, p, _ in c["ops"]):
+                snap = sum(abs(x - round(x / PI) * PI) for n, p, _ in c["ops"] for x in p if 0 < abs(x - round(x / PI) * PI) <= 1.1e-6)
+                if snap and o["d_circ"] <= c["eps"] * (1 + 1e-6) + snap:
+                    circ["known_snapped_angle"] = circ.get("known_snapped_angle", 0) + 1
+                    ctx.violation("finding:ct-angle-within-1e-6-of-k*pi-snapped", rep,
+                                  what=f"clifford_t_decomposition treats a rotation angle within 1e-6 of a multiple of pi as that multiple (allclose atol=1e-6 in _simplify_param): whole-circuit error {o['d_circ']:.3g} > epsilon={c['eps']}")
+                elif any(n == "PhaseShift" and bad_phaseshift(p[0]) for n, p, _ in c["ops"]):
                     circ["known_phaseshift_defect"] = circ.get("known_phaseshift_defect", 0) + 1
                     ctx.violation("finding:ct-phaseshift-3pi/4-replaced-by-T", rep,
                                   what=f"clifford_t_decomposition replaces PhaseShift(k*pi/4), k = 3 or 5 mod 8, by T / Adjoint(T) (off by a Pauli Z): whole-circuit error {o['d_circ']:.3g} > epsilon={c['eps']}")
@@ -339,6 +367,8 @@ def run(ctx):
                 circ["max_ratio"] = max(circ["max_ratio"], o["d_circ"] / c["eps"])
 
     hist.update(stats)
+    hist["escape_cases"] = [f"{it[1]} {it[2]}{it[3]} eps={it[4]} kw={it[5]}" for it in items
+                            if classify(it[1], it[6], it[5]) == "escape"][:12]
     ctx.coverage.update({
         "evaluations": len(terms), "distinct_nontrivial": stats["nontrivial_words"],
         "rule": "corpus (all multiples of pi/4 and odd multiples of pi/8, tiny angles, angles near +-2pi/+-4pi, each at grid precisions 1e-1..1e-8) then seeded random angles in [-2.2pi,2.2pi] x precisions (grid or log-uniform 1e-8..1e-1) for rs (RZ/PhaseShift); sk on RZ/RX/RY/PhaseShift/Rot; random 1-3 wire circuits for the transform (every approximated gate checked); non-trivial = word containing T gates",
